@@ -7,6 +7,7 @@ import (
 	"go/types"
 	"sort"
 	"strings"
+	"sync"
 
 	"golang.org/x/tools/go/ssa"
 
@@ -22,7 +23,7 @@ func init() {
 			"R3: in each request handler the calls of lockSwap and SendEvent are cut off by premium<=PremiumLimit (premium = premium.Setting.Compute for the handler's peer parameter and the request amount, with the same operation constant as the responder action uses), by channel capacity (SpendableMsat for the paying responder, ReceivableMsat for the receiving responder, scid and amount of the same request, 64-bit *1000) and, for the paying responder, by the success result of ProbePayment; on the failing edge of each of these guards every path to a return sends a marshalled CancelMessage to the peer. " +
 			"R4: the nil return of Validate of both request types is cut off by the success edges of the pubkey hex-length-33 test, the asset-xor-network test and the scid test (helpers are inspected: decode ok and len == expected; both xor halves; three scid parts); SendEvent calls ApplyToSwapData only on the Validate==nil edge and the other edge re-enters with the invalid-message event. " +
 			"R5: in the funding (maker) responder the agreement allocation is cut off by balance >= amount + opening fee. " +
-			"Quantification is over all CFG paths of the named functions and all edges of the tables, i.e. over all request field values and policy answers.",
+			"Quantification is over all CFG paths of the named functions and all edges of the tables, i.e. over all request field values and policy answers. Guards, effects and replies are followed through in-module helpers (bool predicates, error-returning checks incl. `return check(x)`, reply/delivery helpers; parameters bound to arguments, depth <= 3) and through values selected into locals (phis are judged per incoming edge); a shape that cannot be interpreted yields an undecided obligation (exit 2), a violation is reported only when the whole relevant code was interpreted.",
 		NotD: "Overflow of amount*1000 and amount+fee for amounts >= 2^64/1000; truncating integer conversions inside guard operands (the engine strips them); that repeated getter calls return the same value; which wallet instance asset/network are compared with; changes of policy or premium rate between the handler's check and the action; the discarded Atoi errors inside validateScid (noted, not part of the admission conditions); error returns of premium.Setting.Compute in the handlers, which return without a cancel message (noted: an I/O fault, not a policy decision).",
 		Run:  runC11,
 	})
@@ -112,16 +113,14 @@ func c11StrRel(f an.Fact, rel, a, b string) bool {
 	return (f.L == a && f.R == b) || (f.L == b && f.R == a)
 }
 
-// c11Cut lists the edges of fn on which pass holds.
+// c11Cut lists the edges of fn on which pass holds (engine facts and the facts
+// derived from helper verdicts).
 func c11Cut(w *an.World, fn *ssa.Function, pass func(an.Fact) bool) []an.Edge {
-	var out []an.Edge
-	for _, f := range w.Facts(fn) {
-		if pass(f) {
-			out = append(out, f.Edge)
-		}
-	}
-	return out
+	return c11XOf(w).cut(fn, pass)
 }
+
+// c11Dom: the facts (incl. derived) that dominate an instruction.
+func c11Dom(w *an.World, in ssa.Instruction) []an.Fact { return c11XOf(w).dominating(in) }
 
 func c11EdgeSet(es []an.Edge) map[an.Edge]bool {
 	m := map[an.Edge]bool{}
@@ -282,23 +281,74 @@ func c11Marshals(w *an.World, fn *ssa.Function, name string) []*ssa.Call {
 	return out
 }
 
-// c11CancelSends lists the SendMessage calls of fn whose payload is a marshalled CancelMessage.
-func c11CancelSends(w *an.World, fn *ssa.Function) []ssa.CallInstruction {
+// c11Cancel is a point of fn at which a marshalled CancelMessage is sent: a
+// Messenger.SendMessage call, or a call of an in-module helper that sends one to
+// one of its parameters on every path to its returns.
+type c11Cancel struct {
+	call ssa.CallInstruction
+	peer ssa.Value // recipient, in terms of fn's values
+}
+
+// c11CancelSends lists the cancel-sending points of fn.
+func c11CancelSends(w *an.World, fn *ssa.Function) []c11Cancel { return c11CancelSendsD(w, fn, 0) }
+
+func c11CancelSendsD(w *an.World, fn *ssa.Function, depth int) []c11Cancel {
 	ms := map[*ssa.Call]bool{}
 	for _, m := range c11Marshals(w, fn, "CancelMessage") {
 		ms[m] = true
 	}
-	var out []ssa.CallInstruction
-	for _, ci := range callsNamed(w, fn, fxSendMessage) {
-		args := ci.Common().Args
-		if len(args) != 3 {
+	var out []c11Cancel
+	for _, ci := range an.Calls(fn) {
+		if _, isGo := ci.(*ssa.Go); isGo {
 			continue
 		}
-		if m := c11CallOf(args[1]); m != nil && ms[m] {
-			out = append(out, ci)
+		if _, isDefer := ci.(*ssa.Defer); isDefer {
+			continue
+		}
+		args := ci.Common().Args
+		if w.Info(ci).Name == fxSendMessage {
+			if len(args) == 3 {
+				if m := c11CallOf(args[1]); m != nil && ms[m] {
+					out = append(out, c11Cancel{ci, args[0]})
+				}
+			}
+			continue
+		}
+		h := ci.Common().StaticCallee()
+		if h == nil || h.Blocks == nil || !w.InModule(h) || depth >= 2 {
+			continue
+		}
+		if pi, ok := c11CancelHelper(w, h, depth+1); ok && pi < len(args) {
+			out = append(out, c11Cancel{ci, args[pi]})
 		}
 	}
 	return out
+}
+
+// c11CancelHelper: h sends a CancelMessage to its parameter #pi on every path
+// from its entry to a return.
+func c11CancelHelper(w *an.World, h *ssa.Function, depth int) (int, bool) {
+	sends := c11CancelSendsD(w, h, depth)
+	if len(sends) == 0 {
+		return 0, false
+	}
+	pi := -1
+	stop := map[*ssa.BasicBlock]bool{}
+	for _, cs := range sends {
+		i := c11ParamIdx(cs.peer)
+		if i < 0 || (pi >= 0 && i != pi) {
+			return 0, false
+		}
+		pi = i
+		stop[cs.call.Block()] = true
+	}
+	reach := an.ReachBlocks([]*ssa.BasicBlock{h.Blocks[0]}, nil, stop)
+	for _, r := range an.Returns(h) {
+		if r.Block() != h.Recover && reach[r.Block()] && !stop[r.Block()] {
+			return 0, false
+		}
+	}
+	return pi, true
 }
 
 type c11Resp struct {
@@ -343,7 +393,7 @@ func runC11(c *an.Check) {
 		c.Anchor("message types SwapIn/OutAgreementMessage, SwapIn/OutRequestMessage, CancelMessage do not all resolve")
 		return
 	}
-	for _, fn := range []string{"(*SwapData).GetChain", "(*SwapData).GetAmount", "(*SwapData).GetAsset", "(*SwapData).GetNetwork", "(*SwapData).GetProtocolVersion", "MarshalPeerswapMessage", "(*SwapStateMachine).SendEvent", "(*SwapService).lockSwap"} {
+	for _, fn := range []string{"(*SwapData).GetChain", "(*SwapData).GetAmount", "(*SwapData).GetAsset", "(*SwapData).GetNetwork", "(*SwapData).GetProtocolVersion", "MarshalPeerswapMessage", "(*SwapStateMachine).SendEvent"} {
 		if w.Func("swap", fn) == nil {
 			c.Anchor("swap.%s does not resolve", fn)
 			return
@@ -471,7 +521,7 @@ func runC11(c *an.Check) {
 			cons := r.t.key(r.state) + " guard " + g.id
 			pos := r.t.pos(c, r.state)
 			established := false
-			var why []string
+			var why, undecided []string
 			for i, fn := range r.chain {
 				var targets []ssa.Instruction
 				if i == len(r.chain)-1 {
@@ -494,7 +544,7 @@ func runC11(c *an.Check) {
 				for _, tg := range targets {
 					if !an.EdgesDominate(cut, tg.Block()) {
 						all = false
-						why = append(why, fmt.Sprintf("%s: %s is reachable without the condition (facts that do dominate it: %s)", w.FuncName(fn), w.Pos(tg.Pos()), an.DescribeFacts(w.FactsDominating(tg))))
+						why = append(why, fmt.Sprintf("%s: %s is reachable without the condition (facts that do dominate it: %s)", w.FuncName(fn), w.Pos(tg.Pos()), an.DescribeFacts(c11Dom(w, tg))))
 					}
 				}
 				if !all {
@@ -503,7 +553,10 @@ func runC11(c *an.Check) {
 				evs := returnEventsFrom(w, fn, an.ReachBlocks(c11FailStarts(cut), c11EdgeSet(cut), nil))
 				bad := ""
 				for ev, rets := range evs {
-					if ev != evFailed {
+					if ev == "?" {
+						undecided = append(undecided, fmt.Sprintf("%s: the event returned at %s on the failing side is not a constant", w.FuncName(fn), w.Pos(rets[0].Pos())))
+						bad += " ?"
+					} else if ev != evFailed {
 						bad += fmt.Sprintf(" %s@%s", ev, w.Pos(rets[0].Pos()))
 					}
 				}
@@ -526,9 +579,31 @@ func runC11(c *an.Check) {
 				}
 				d := "no test of this condition in " + strings.Join(names, ", ")
 				if ds := callsNamed(w, r.chain[0], fxActionExecute); len(ds) > 0 {
-					d += "; facts that dominate the first delegation: " + an.DescribeFacts(w.FactsDominating(ds[0]))
+					d += "; facts that dominate the first delegation: " + an.DescribeFacts(c11Dom(w, ds[0]))
 				}
 				why = append(why, d)
+			}
+			for i, fn := range r.chain {
+				var tb []*ssa.BasicBlock
+				if i == len(r.chain)-1 {
+					for _, a := range r.allocs {
+						tb = append(tb, a.Block())
+					}
+				} else {
+					for _, d := range callsNamed(w, fn, fxActionExecute) {
+						tb = append(tb, d.Block())
+					}
+				}
+				if len(tb) == 0 {
+					continue
+				}
+				for _, o := range c11XOf(w).opaque(fn, tb...) {
+					undecided = append(undecided, w.FuncName(fn)+" tests the verdict of "+o+", which this rule cannot interpret")
+				}
+			}
+			if len(undecided) > 0 {
+				c.Unknown(g.rule, cons, pos, fmt.Sprintf("cannot decide whether `%s` is established: %s | %s", g.what, strings.Join(undecided, "; "), strings.Join(why, " | ")))
+				continue
 			}
 			c.Bad(g.rule, cons, pos, fmt.Sprintf("an agreement (%s) can be constructed although the condition `%s` does not hold: %s", r.msg, g.what, strings.Join(why, " | ")))
 		}
@@ -586,8 +661,12 @@ func runC11(c *an.Check) {
 		default:
 			c.OK("C11.R2", t.edgeKey(r.state, evSucceeded), w.Pos(e.EventPos[evSucceeded]), "agreement-sending state is reachable from the default state only through the success edge of the checked state")
 		}
-		c.Decide(isCancelState(t, fail), "C11.R2", t.edgeKey(r.state, evFailed), w.Pos(e.EventPos[evFailed]),
-			"failure target marshals and sends a CancelMessage", "the failure target of the checked state does not send a CancelMessage (actions "+strings.Join(t.T.States[fail].ActionNames(), ",")+")")
+		if !isCancelState(t, fail) && t.Sum[fail].HasEffect(fxSendMessage) && t.Sum[fail].HasEffect("func:swap.MarshalPeerswapMessage") {
+			c.Unknown("C11.R2", t.edgeKey(r.state, evFailed), w.Pos(e.EventPos[evFailed]), "the failure target sends a message, but this rule cannot see that it is a marshalled CancelMessage (actions "+strings.Join(t.T.States[fail].ActionNames(), ",")+")")
+		} else {
+			c.Decide(isCancelState(t, fail), "C11.R2", t.edgeKey(r.state, evFailed), w.Pos(e.EventPos[evFailed]),
+				"failure target marshals and sends a CancelMessage", "the failure target of the checked state does not send a CancelMessage (actions "+strings.Join(t.T.States[fail].ActionNames(), ",")+")")
+		}
 		// invalid message from the default state
 		d := t.T.States[""]
 		if d == nil {
@@ -597,6 +676,10 @@ func runC11(c *an.Check) {
 		inv, okI := d.Events[evInvalidMessage]
 		if !okI {
 			c.Bad("C11.R2", t.key("")+" --"+evInvalidMessage, t.pos(c, ""), "the default state does not accept the invalid-message event: an invalid request is rejected without a cancel message")
+			continue
+		}
+		if !isCancelState(t, inv) && t.Sum[inv].HasEffect(fxSendMessage) && t.Sum[inv].HasEffect("func:swap.MarshalPeerswapMessage") {
+			c.Unknown("C11.R2", t.edgeKey("", evInvalidMessage), w.Pos(d.EventPos[evInvalidMessage]), "the target of the invalid-message edge sends a message, but this rule cannot see that it is a marshalled CancelMessage")
 			continue
 		}
 		c.Decide(isCancelState(t, inv), "C11.R2", t.edgeKey("", evInvalidMessage), w.Pos(d.EventPos[evInvalidMessage]),
@@ -615,35 +698,6 @@ func runC11(c *an.Check) {
 }
 
 // ---- R6: the policy implementation ---------------------------------------------------------
-
-// c11Returned lists, per return of fn, the value returned as result 0 (looking
-// through the result variable that a deferred call forces into memory).
-func c11Returned(fn *ssa.Function) (vals []ssa.Value, at []*ssa.Return, unknown bool) {
-	for _, r := range an.Returns(fn) {
-		if r.Block() == fn.Recover || len(r.Results) == 0 {
-			continue
-		}
-		v := r.Results[0]
-		if u, ok := v.(*ssa.UnOp); ok && u.Op == token.MUL {
-			if al, ok := u.X.(*ssa.Alloc); ok {
-				var last ssa.Value
-				for _, in := range r.Block().Instrs {
-					if st, ok := in.(*ssa.Store); ok && st.Addr == al {
-						last = st.Val
-					}
-				}
-				if last == nil {
-					unknown = true
-					continue
-				}
-				v = last
-			}
-		}
-		vals = append(vals, v)
-		at = append(at, r)
-	}
-	return
-}
 
 func c11PolicyImpl(c *an.Check) {
 	w := c.W
@@ -699,10 +753,10 @@ func c11PolicyImpl(c *an.Check) {
 		}
 		type spec struct {
 			meth  string
-			check func(fn *ssa.Function, v ssa.Value, r *ssa.Return) (verdict int, why string) // 0 ok, 1 bad, 2 unknown
+			check func(fn *ssa.Function, v ssa.Value, cs c11Case) (verdict int, why string) // 0 ok, 1 bad, 2 unknown
 		}
-		fieldOnly := func(field string) func(fn *ssa.Function, v ssa.Value, r *ssa.Return) (int, string) {
-			return func(fn *ssa.Function, v ssa.Value, r *ssa.Return) (int, string) {
+		fieldOnly := func(field string) func(fn *ssa.Function, v ssa.Value, cs c11Case) (int, string) {
+			return func(fn *ssa.Function, v ssa.Value, cs c11Case) (int, string) {
 				if t := w.Term(v); t != "field:"+tn+"."+field {
 					return 1, "returns " + t + " instead of the configured field " + field
 				}
@@ -712,7 +766,7 @@ func c11PolicyImpl(c *an.Check) {
 		specs := []spec{
 			{"NewSwapsAllowed", fieldOnly("AllowNewSwaps")},
 			{"GetMinSwapAmountMsat", fieldOnly("MinSwapAmountMsat")},
-			{"IsPeerSuspicious", func(fn *ssa.Function, v ssa.Value, r *ssa.Return) (int, string) {
+			{"IsPeerSuspicious", func(fn *ssa.Function, v ssa.Value, cs c11Case) (int, string) {
 				if isC, right := member(v, "SuspiciousPeerList"); isC {
 					if right {
 						return 0, ""
@@ -729,7 +783,7 @@ func c11PolicyImpl(c *an.Check) {
 				}
 				return 2, "unsupported shape of the returned value: " + w.Term(v)
 			}},
-			{"IsPeerAllowed", func(fn *ssa.Function, v ssa.Value, r *ssa.Return) (int, string) {
+			{"IsPeerAllowed", func(fn *ssa.Function, v ssa.Value, cs c11Case) (int, string) {
 				if isC, right := member(v, "PeerAllowlist"); isC {
 					if right {
 						return 0, ""
@@ -745,9 +799,10 @@ func c11PolicyImpl(c *an.Check) {
 					if k.Value != nil && k.Value.Kind() == constant.Bool && !constant.BoolVal(k.Value) {
 						return 0, "" // refusing is always allowed
 					}
-					all := c11Cut(w, fn, func(f an.Fact) bool { return c11Atom(w, f, "field:"+tn+".AcceptAllPeers", true) })
-					if len(all) > 0 && an.EdgesDominate(all, r.Block()) {
-						return 0, ""
+					for _, f := range c11XOf(w).at(fn, cs.b, cs.via, 0) {
+						if c11Atom(w, f, "field:"+tn+".AcceptAllPeers", true) {
+							return 0, ""
+						}
 					}
 					return 1, "returns true on a path on which AcceptAllPeers is not known to be set"
 				}
@@ -761,15 +816,21 @@ func c11PolicyImpl(c *an.Check) {
 				c.Anchor("method %s does not resolve", cons)
 				continue
 			}
-			vals, rets, unk := c11Returned(fn)
+			cases := c11Cases(fn, 0, true)
 			verdict, why := 0, ""
-			if unk || len(vals) == 0 {
+			if len(cases) == 0 {
 				verdict, why = 2, "cannot determine the returned values"
 			}
-			for i, v := range vals {
-				vd, wy := sp.check(fn, v, rets[i])
+			for _, cs := range cases {
+				if cs.lost {
+					if verdict == 0 {
+						verdict, why = 2, "cannot determine a returned value ("+w.Pos(cs.ret.Pos())+")"
+					}
+					continue
+				}
+				vd, wy := sp.check(fn, cs.v, cs)
 				if vd == 1 && verdict != 1 || vd == 2 && verdict == 0 {
-					verdict, why = vd, wy+" ("+w.Pos(rets[i].Pos())+")"
+					verdict, why = vd, wy+" ("+w.Pos(cs.ret.Pos())+")"
 				}
 			}
 			switch verdict {
@@ -786,7 +847,23 @@ func c11PolicyImpl(c *an.Check) {
 
 // ---- R3: request handlers ------------------------------------------------------------------
 
-// c11Ops lists the (asset<<8 | operation) constant pairs of the premium.Setting.Compute calls of fn.
+// c11ConstCases: the integer constants a call argument may hold (phis of
+// constants are enumerated with the place that selects each); ok=false when some
+// incoming value is not a constant.
+func c11ConstCases(v ssa.Value, b *ssa.BasicBlock) (ks []int64, cs []c11Case, ok bool) {
+	for _, k := range c11ValCases(v, b) {
+		n, isK := an.ConstInt(k.v)
+		if k.lost || !isK {
+			return nil, nil, false
+		}
+		ks = append(ks, n)
+		cs = append(cs, k)
+	}
+	return ks, cs, len(ks) > 0
+}
+
+// c11Ops lists the (asset<<8 | operation) constant pairs of the premium.Setting.Compute calls of fn
+// (-1: some argument is not a constant).
 func c11Ops(w *an.World, fn *ssa.Function) (ops map[int64]bool) {
 	ops = map[int64]bool{}
 	for _, ci := range callsNamed(w, fn, "func:(*premium.Setting).Compute") {
@@ -794,12 +871,16 @@ func c11Ops(w *an.World, fn *ssa.Function) (ops map[int64]bool) {
 		if !ok || len(cl.Call.Args) != 5 {
 			continue
 		}
-		a, okA := an.ConstInt(cl.Call.Args[2])
-		o, okO := an.ConstInt(cl.Call.Args[3])
-		if okA && okO {
-			ops[a<<8|o] = true
-		} else {
+		as, _, okA := c11ConstCases(cl.Call.Args[2], cl.Block())
+		os, _, okO := c11ConstCases(cl.Call.Args[3], cl.Block())
+		if !okA || !okO {
 			ops[-1] = true
+			continue
+		}
+		for _, a := range as {
+			for _, o := range os {
+				ops[a<<8|o] = true
+			}
 		}
 	}
 	return
@@ -837,27 +918,50 @@ func c11Handlers(c *an.Check, resp []*c11Resp, inReq, outReq *types.Named) {
 			if w.FnRel(fn) != "swap" {
 				continue
 			}
-			for _, se := range callsNamed(w, fn, "func:(*swap.SwapStateMachine).SendEvent") {
-				args := se.Common().Args
-				if len(args) != 3 {
+			for _, ci := range an.Calls(fn) {
+				args := ci.Common().Args
+				if w.Info(ci).Name == "func:(*swap.SwapStateMachine).SendEvent" {
+					if len(args) != 3 {
+						continue
+					}
+					if ev, ok := an.ConstString(args[1]); ok && start[ev] {
+						nH++
+						c11Handler(c, r, fn, ci, args[2], actOps)
+					}
 					continue
 				}
-				ev, ok := an.ConstString(args[1])
-				if !ok || !start[ev] {
+				// a delivery helper h(…, event, ctx, …) that hands its parameters to SendEvent
+				h := ci.Common().StaticCallee()
+				if h == nil || h.Blocks == nil || !w.InModule(h) {
 					continue
 				}
-				nH++
-				c11Handler(c, r, fn, se, actOps)
+				for _, in := range callsNamed(w, h, "func:(*swap.SwapStateMachine).SendEvent") {
+					ia := in.Common().Args
+					if len(ia) != 3 {
+						continue
+					}
+					ei, ci2 := c11ParamIdx(ia[1]), c11ParamIdx(ia[2])
+					if ei < 0 || ci2 < 0 || ei >= len(args) || ci2 >= len(args) {
+						continue
+					}
+					if ev, ok := an.ConstString(args[ei]); ok && start[ev] {
+						nH++
+						c11Handler(c, r, fn, ci, args[ci2], actOps)
+						break
+					}
+				}
 			}
 		}
 	}
 	c.AtLeast("C11.R3", "request handlers (SendEvent of a responder start event)", nH, 2)
 }
 
-func c11Handler(c *an.Check, r *c11Resp, fn *ssa.Function, se ssa.CallInstruction, actOps map[int64]bool) {
+// c11Handler: se is the call in the handler that injects the start event (SendEvent
+// itself or a delivery helper), ctx the event context handed over.
+func c11Handler(c *an.Check, r *c11Resp, fn *ssa.Function, se ssa.CallInstruction, ctx ssa.Value, actOps map[int64]bool) {
 	w := c.W
 	name := w.FuncName(fn)
-	msg, _ := c11StripIface(se.Common().Args[2]).(*ssa.Parameter)
+	msg, _ := c11StripIface(ctx).(*ssa.Parameter)
 	if msg == nil {
 		c.Unknown("C11.R3", name+" request", w.Pos(se.Pos()), "the event context passed to SendEvent is not a parameter of the handler; cannot tie the guards to the request")
 		return
@@ -877,7 +981,19 @@ func c11Handler(c *an.Check, r *c11Resp, fn *ssa.Function, se ssa.CallInstructio
 			break
 		}
 		chain, root := w.FieldChain(v)
-		return root == msg && chain == mname+"."+field
+		return c11XOf(w).resolve(root) == msg && chain == mname+"."+field
+	}
+	// otherField: v is a field of the request, but not the expected one
+	otherField := func(v ssa.Value, field string) bool {
+		for {
+			if cv, ok := v.(*ssa.Convert); ok {
+				v = cv.X
+				continue
+			}
+			break
+		}
+		chain, root := w.FieldChain(v)
+		return c11XOf(w).resolve(root) == msg && strings.HasPrefix(chain, mname+".") && chain != mname+"."+field
 	}
 	targets := []ssa.Instruction{se}
 	for _, l := range callsNamed(w, fn, "func:(*swap.SwapService).lockSwap") {
@@ -887,7 +1003,7 @@ func c11Handler(c *an.Check, r *c11Resp, fn *ssa.Function, se ssa.CallInstructio
 	var peer ssa.Value
 	// the peer the handler answers: first argument of the cancel sends / Compute must agree
 	for _, cs := range c11CancelSends(w, fn) {
-		cancels[cs.Block()] = true
+		cancels[cs.call.Block()] = true
 	}
 
 	type hGuard struct {
@@ -930,69 +1046,84 @@ func c11Handler(c *an.Check, r *c11Resp, fn *ssa.Function, se ssa.CallInstructio
 				return c11LinGE(f, []c11Term{{[]string{mname + ".PremiumLimit"}, 1}, {[]string{"call:func:(*premium.Setting).Compute#0"}, -1}})
 			},
 			extra: func(f an.Fact) string {
+				// a message starting with "?" means: this rule cannot interpret the shape (undecided)
 				lim := operand(f, mname+".PremiumLimit")
 				if lim == nil || !fieldOfMsg(lim, "PremiumLimit") {
-					return "the limit compared is not the PremiumLimit of the request passed to SendEvent"
+					return "?cannot tie the limit compared to the PremiumLimit of the request passed to SendEvent"
 				}
 				pv := operand(f, "(*premium.Setting).Compute#0")
 				if pv == nil {
-					return "cannot find the premium operand"
+					return "?cannot find the premium operand"
 				}
 				calls := c11CallsBehind(pv)
 				if len(calls) == 0 {
-					return "premium operand is not a call result"
+					return "?premium operand is not a call result"
 				}
 				ops := map[int64]bool{}
+				x := c11XOf(w)
 				for _, cl := range calls {
 					if cl == nil {
-						return "on some path the premium compared is not a result of premium.Setting.Compute"
+						return "?on some path the premium compared is not a result of premium.Setting.Compute"
 					}
 					if w.Info(cl).Name != "func:(*premium.Setting).Compute" || len(cl.Call.Args) != 5 {
-						return "premium operand comes from " + w.Info(cl).Name
+						return "?premium operand comes from " + w.Info(cl).Name
 					}
-					p, isP := cl.Call.Args[1].(*ssa.Parameter)
-					if !isP || (peer != nil && peer != p) {
-						return "premium is not computed for the handler's peer parameter"
+					p, isP := x.resolve(cl.Call.Args[1]).(*ssa.Parameter)
+					if !isP || p.Parent() != fn {
+						return "?cannot tie the peer the premium is computed for to a parameter of the handler"
+					}
+					if peer != nil && peer != p {
+						return "premium is computed for " + w.Term(p) + " but an earlier test used " + w.Term(peer)
 					}
 					peer = p
 					if !fieldOfMsg(cl.Call.Args[4], "Amount") {
-						return "premium is not computed for the request amount"
+						if otherField(cl.Call.Args[4], "Amount") {
+							return "premium is computed on " + w.Term(cl.Call.Args[4]) + ", not on the request amount"
+						}
+						return "?cannot tie the amount the premium is computed on to the request"
 					}
-					a, okA := an.ConstInt(cl.Call.Args[2])
-					k, okK := an.ConstInt(cl.Call.Args[3])
+					as, acs, okA := c11ConstCases(cl.Call.Args[2], cl.Block())
+					ks, _, okK := c11ConstCases(cl.Call.Args[3], cl.Block())
 					if !okA || !okK {
-						return "premium asset/operation is not a constant"
+						return "?premium asset/operation is not a constant"
 					}
-					ops[a<<8|k] = true
 					// the liquid rate is used iff the request names no network (resp. an asset)
 					netEmpty, netSet := `"" == field:`+mname+".Network", `"" != field:`+mname+".Network"
 					assetEmpty, assetSet := `"" == field:`+mname+".Asset", `"" != field:`+mname+".Asset"
-					var have []string
-					for _, df := range w.FactsDominating(cl) {
-						if df.NonNum {
-							have = append(have, df.L+" "+df.Rel+" "+df.R)
+					for i, a := range as {
+						for _, k := range ks {
+							ops[a<<8|k] = true
 						}
-					}
-					has := func(x string) bool {
-						for _, h := range have {
-							if h == x {
-								return true
+						has := func(want string) bool {
+							for _, df := range x.at(fn, acs[i].b, acs[i].via, 0) {
+								if df.NonNum && df.L+" "+df.Rel+" "+df.R == want {
+									return true
+								}
 							}
+							return false
 						}
-						return false
+						switch {
+						case lbtcA >= 0 && a == lbtcA:
+							if has(netSet) || has(assetEmpty) {
+								return "the liquid premium rate is looked up for a request that names a network / no asset"
+							}
+							if !has(netEmpty) && !has(assetSet) {
+								return "?cannot see under which request kind the liquid premium rate is looked up"
+							}
+						case btcA >= 0 && a == btcA:
+							if has(netEmpty) || has(assetSet) {
+								return "the bitcoin premium rate is looked up for a request that names an asset / no network"
+							}
+							if !has(netSet) && !has(assetEmpty) {
+								return "?cannot see under which request kind the bitcoin premium rate is looked up"
+							}
+						default:
+							return fmt.Sprintf("premium asset constant %d is neither premium.BTC nor premium.LBTC", a)
+						}
 					}
-					switch {
-					case lbtcA >= 0 && a == lbtcA:
-						if !has(netEmpty) && !has(assetSet) {
-							return "the liquid premium rate is looked up on a path that does not test the request for a liquid request (empty network / set asset)"
-						}
-					case btcA >= 0 && a == btcA:
-						if !has(netSet) && !has(assetEmpty) {
-							return "the bitcoin premium rate is looked up on a path that does not test the request for a bitcoin request (set network / empty asset)"
-						}
-					default:
-						return fmt.Sprintf("premium asset constant %d is neither premium.BTC nor premium.LBTC", a)
-					}
+				}
+				if actOps[-1] {
+					return "?the responder action computes its premium with a non-constant asset/operation"
 				}
 				if c11OpNames(ops) != c11OpNames(actOps) {
 					return "the handler checks the premium of " + c11OpNames(ops) + " but the responder action charges " + c11OpNames(actOps)
@@ -1006,15 +1137,21 @@ func c11Handler(c *an.Check, r *c11Resp, fn *ssa.Function, se ssa.CallInstructio
 			extra: func(f an.Fact) string {
 				cv := operand(f, capTerm)
 				cl, args := callArgs(cv)
-				if cl == nil || len(args) != 1 || !fieldOfMsg(args[0], "Scid") {
-					return "capacity is not queried for the scid of the request"
+				if cl == nil || len(args) != 1 {
+					return "?cannot find the capacity query"
+				}
+				if !fieldOfMsg(args[0], "Scid") {
+					if otherField(args[0], "Scid") {
+						return "capacity is queried for " + w.Term(args[0]) + ", not for the scid of the request"
+					}
+					return "?cannot tie the channel whose capacity is queried to the request"
 				}
 				for _, v := range []ssa.Value{f.LV, f.RV} {
 					if base, k, ok := c11MulK(v); ok && k == 1000 && fieldOfMsg(base, "Amount") {
 						return ""
 					}
 				}
-				return "the amount compared is not request.Amount*1000"
+				return "?cannot tie the amount compared to request.Amount*1000"
 			}},
 	}
 	if !r.maker {
@@ -1023,11 +1160,21 @@ func c11Handler(c *an.Check, r *c11Resp, fn *ssa.Function, se ssa.CallInstructio
 			extra: func(f an.Fact) string {
 				pv, _, _ := c11AtomOf(f)
 				cl, args := callArgs(pv)
-				if cl == nil || len(args) != 2 || !fieldOfMsg(args[0], "Scid") {
-					return "the probe is not made on the scid of the request"
+				if cl == nil || len(args) != 2 {
+					return "?cannot find the probe call"
 				}
-				if base, k, ok := c11MulK(args[1]); !ok || k != 1000 || !fieldOfMsg(base, "Amount") {
-					return "the probe amount is not request.Amount*1000"
+				if !fieldOfMsg(args[0], "Scid") {
+					if otherField(args[0], "Scid") {
+						return "the probe is made on " + w.Term(args[0]) + ", not on the scid of the request"
+					}
+					return "?cannot tie the probed channel to the request"
+				}
+				base, k, ok := c11MulK(args[1])
+				if ok && k != 1000 && fieldOfMsg(base, "Amount") {
+					return fmt.Sprintf("the probe amount is request.Amount*%d, not *1000", k)
+				}
+				if !ok || !fieldOfMsg(base, "Amount") {
+					return "?cannot tie the probe amount to request.Amount*1000"
 				}
 				return ""
 			}})
@@ -1036,7 +1183,7 @@ func c11Handler(c *an.Check, r *c11Resp, fn *ssa.Function, se ssa.CallInstructio
 		cons := name + " guard " + g.id
 		var cut []an.Edge
 		var notes []string
-		for _, f := range w.Facts(fn) {
+		for _, f := range c11XOf(w).facts(fn) {
 			if !g.pass(f) {
 				continue
 			}
@@ -1046,12 +1193,28 @@ func c11Handler(c *an.Check, r *c11Resp, fn *ssa.Function, se ssa.CallInstructio
 			}
 			cut = append(cut, f.Edge)
 		}
-		if len(cut) == 0 {
-			d := "no test of `" + g.what + "` in the handler"
-			if len(notes) > 0 {
-				d = "a test exists but: " + strings.Join(notes, "; ")
+		var tblocks []*ssa.BasicBlock
+		for _, tg := range targets {
+			tblocks = append(tblocks, tg.Block())
+		}
+		undec := c11XOf(w).opaque(fn, tblocks...)
+		var wrong []string
+		for _, m := range notes {
+			if strings.HasPrefix(m, "?") {
+				undec = append(undec, m[1:])
+			} else {
+				wrong = append(wrong, m)
 			}
-			c.Bad("C11.R3", cons, w.Pos(se.Pos()), "the request is handed to the state machine without this pre-check: "+d)
+		}
+		if len(cut) == 0 {
+			switch {
+			case len(wrong) > 0:
+				c.Bad("C11.R3", cons, w.Pos(se.Pos()), "the request is handed to the state machine without this pre-check: a test exists but: "+strings.Join(wrong, "; "))
+			case len(undec) > 0:
+				c.Unknown("C11.R3", cons, w.Pos(se.Pos()), "cannot decide whether `"+g.what+"` is tested: "+strings.Join(undec, "; "))
+			default:
+				c.Bad("C11.R3", cons, w.Pos(se.Pos()), "the request is handed to the state machine without this pre-check: no test of `"+g.what+"` in the handler")
+			}
 			continue
 		}
 		bad := ""
@@ -1061,7 +1224,11 @@ func c11Handler(c *an.Check, r *c11Resp, fn *ssa.Function, se ssa.CallInstructio
 			}
 		}
 		if bad != "" {
-			c.Bad("C11.R3", cons, w.Pos(se.Pos()), "reachable without `"+g.what+"`:"+bad+"; facts dominating SendEvent: "+an.DescribeFacts(w.FactsDominating(se)))
+			if len(undec) > 0 {
+				c.Unknown("C11.R3", cons, w.Pos(se.Pos()), "a test of `"+g.what+"` exists but does not dominate"+bad+", and: "+strings.Join(undec, "; "))
+				continue
+			}
+			c.Bad("C11.R3", cons, w.Pos(se.Pos()), "reachable without `"+g.what+"`:"+bad+"; facts dominating SendEvent: "+an.DescribeFacts(c11Dom(w, se)))
 			continue
 		}
 		// failing side: every path to a return sends the cancel message
@@ -1072,14 +1239,44 @@ func c11Handler(c *an.Check, r *c11Resp, fn *ssa.Function, se ssa.CallInstructio
 				silent += " " + w.Pos(ret.Pos())
 			}
 		}
+		if silent != "" {
+			// a helper in the failing region that sends some message, but is not recognised as a cancel reply
+			var maybe []string
+			for b := range region {
+				if cancels[b] {
+					continue
+				}
+				for _, in := range b.Instrs {
+					ci, ok := in.(ssa.CallInstruction)
+					if !ok {
+						continue
+					}
+					if h := ci.Common().StaticCallee(); h != nil && h.Blocks != nil && w.InModule(h) && w.Summary(h).HasEffect(fxSendMessage) {
+						maybe = append(maybe, w.FuncName(h))
+					}
+					if _, isDyn := ci.Common().Value.(*ssa.MakeClosure); isDyn {
+						maybe = append(maybe, "a closure")
+					}
+				}
+			}
+			if len(maybe) > 0 {
+				sort.Strings(maybe)
+				c.Unknown("C11.R3", cons, w.Pos(se.Pos()), "the guard holds; its failing edge returns at"+silent+" after calling "+strings.Join(maybe, ", ")+", which may send the cancel message but is not recognised as doing so on every path")
+				continue
+			}
+		}
 		c.Decide(silent == "", "C11.R3", cons, w.Pos(se.Pos()),
 			"dominates lockSwap/SendEvent; the failing edge sends a CancelMessage: "+g.what,
 			"the guard holds, but its failing edge can return without sending a CancelMessage (returns at"+silent+")")
 	}
 	// cancel messages go to the peer the premium was computed for
 	for _, cs := range c11CancelSends(w, fn) {
-		if peer != nil && cs.Common().Args[0] != peer {
-			c.Bad("C11.R3", name+" cancel recipient", w.Pos(cs.Pos()), "a cancel message is sent to a value other than the handler's peer parameter")
+		if peer != nil && cs.peer != peer {
+			if q, isP := cs.peer.(*ssa.Parameter); isP && q.Parent() == fn {
+				c.Bad("C11.R3", name+" cancel recipient", w.Pos(cs.call.Pos()), "a cancel message is sent to "+w.Term(cs.peer)+", not to the handler's peer parameter")
+			} else {
+				c.Unknown("C11.R3", name+" cancel recipient", w.Pos(cs.call.Pos()), "cannot tie the recipient "+w.Term(cs.peer)+" of a cancel message to the handler's peer parameter")
+			}
 		}
 	}
 	// information: error returns that leave without a cancel
@@ -1123,28 +1320,56 @@ func c11SortedInts(m map[int64]bool) []int64 {
 
 // ---- R4: Validate ---------------------------------------------------------------------------
 
-func c11NilReturns(fn *ssa.Function) []*ssa.Return {
-	var out []*ssa.Return
-	for _, r := range an.Returns(fn) {
-		if len(r.Results) == 1 && an.IsNilConst(r.Results[0]) {
-			out = append(out, r)
+// c11NilCut decides whether every possibly-nil error return of fn is cut off by
+// the edges, or is the directly returned result of one of okCalls
+// (`return check(x)` is nil only if check succeeded). 0 = yes; 1 = a literal nil
+// return is reachable without the edges; 2 = some returned value cannot be
+// interpreted.
+func c11NilCut(w *an.World, fn *ssa.Function, cut []an.Edge, okCalls map[*ssa.Call]bool) (int, string) {
+	x := c11XOf(w)
+	cm := c11EdgeSet(cut)
+	nilable := 0
+	verdict, why := 0, ""
+	worse := func(v int, m string) {
+		if v == 1 && verdict != 1 || v == 2 && verdict == 0 {
+			verdict, why = v, m
 		}
 	}
-	return out
+	for _, cs := range c11Cases(fn, 0, false) {
+		if cs.lost {
+			worse(2, "a returned value cannot be determined ("+w.Pos(cs.ret.Pos())+")")
+			continue
+		}
+		if !an.IsNilConst(cs.v) && x.nonNil(cs) {
+			continue
+		}
+		nilable++
+		if call := c11CallOf(cs.v); call != nil && okCalls[call] {
+			continue
+		}
+		covered := (cs.via.From != nil && cm[cs.via]) || (len(cut) > 0 && an.EdgesDominate(cut, cs.b))
+		if covered {
+			continue
+		}
+		if an.IsNilConst(cs.v) {
+			worse(1, "the nil return at "+w.Pos(cs.ret.Pos())+" is reachable without the test")
+		} else {
+			worse(2, "the value returned at "+w.Pos(cs.ret.Pos())+" ("+w.Term(cs.v)+") may be nil and is not recognised as the result of the test")
+		}
+	}
+	if nilable == 0 && verdict == 0 {
+		return 2, "no return of a possibly nil error found"
+	}
+	return verdict, why
 }
 
-// c11AllNilCut: every nil return of fn is cut off by the edges.
-func c11AllNilCut(fn *ssa.Function, cut []an.Edge) bool {
-	rs := c11NilReturns(fn)
-	if len(rs) == 0 || len(cut) == 0 {
+// c11AllNilCut: every nil return of a helper is cut off by the edges.
+func c11AllNilCut(w *an.World, fn *ssa.Function, cut []an.Edge) bool {
+	if len(cut) == 0 {
 		return false
 	}
-	for _, r := range rs {
-		if !an.EdgesDominate(cut, r.Block()) {
-			return false
-		}
-	}
-	return true
+	v, _ := c11NilCut(w, fn, cut, nil)
+	return v == 0
 }
 
 func c11ParamIdx(v ssa.Value) int {
@@ -1178,15 +1403,16 @@ func c11HexLen(w *an.World, g *ssa.Function) (si, ni int, ok bool) {
 		lenOK := c11Cut(w, g, func(f an.Fact) bool {
 			return an.MatchLin(f, an.LinSpec{Rel: "==", Terms: map[string]int64{"len(call:func:encoding/hex.DecodeString#0)": 1, p: -1}})
 		})
-		if len(lenOK) > 0 && c11AllNilCut(g, lenOK) && c11AllNilCut(g, decOK) {
+		if len(lenOK) > 0 && c11AllNilCut(w, g, lenOK) && c11AllNilCut(w, g, decOK) {
 			return si, i, true
 		}
 	}
 	return
 }
 
-// c11Xor: g(a, b) returns nil only if exactly one of its two string parameters is empty.
-func c11Xor(w *an.World, g *ssa.Function) (ai, bi int, ok bool) {
+// c11Xor: g(a, b) returns nil only if exactly one of its two string parameters is
+// empty. partial: g compares both parameters with "" but one half of the test is missing.
+func c11Xor(w *an.World, g *ssa.Function) (ai, bi int, ok, partial bool) {
 	var sp []int
 	for i, p := range g.Params {
 		if b, isB := p.Type().Underlying().(*types.Basic); isB && b.Kind() == types.String {
@@ -1199,18 +1425,36 @@ func c11Xor(w *an.World, g *ssa.Function) (ai, bi int, ok bool) {
 	a, b := fmt.Sprintf("param#%d", sp[0]), fmt.Sprintf("param#%d", sp[1])
 	someSet := c11Cut(w, g, func(f an.Fact) bool { return c11StrRel(f, "!=", `""`, a) || c11StrRel(f, "!=", `""`, b) })
 	someEmpty := c11Cut(w, g, func(f an.Fact) bool { return c11StrRel(f, "==", `""`, a) || c11StrRel(f, "==", `""`, b) })
-	if c11AllNilCut(g, someSet) && c11AllNilCut(g, someEmpty) {
-		return sp[0], sp[1], true
+	if c11AllNilCut(w, g, someSet) && c11AllNilCut(w, g, someEmpty) {
+		return sp[0], sp[1], true, false
 	}
-	return
+	testsA := len(c11Cut(w, g, func(f an.Fact) bool { return c11StrRel(f, "==", `""`, a) })) > 0
+	testsB := len(c11Cut(w, g, func(f an.Fact) bool { return c11StrRel(f, "==", `""`, b) })) > 0
+	v1, _ := c11NilCut(w, g, someSet, nil)
+	v2, _ := c11NilCut(w, g, someEmpty, nil)
+	return sp[0], sp[1], false, testsA && testsB && v1 != 2 && v2 != 2
 }
 
-// c11ScidFmt: g(s) returns nil only if s splits into three parts.
-func c11ScidFmt(w *an.World, g *ssa.Function) bool {
+// c11ScidFmt: g(s) returns nil only if s splits into three parts. partial: g
+// looks at the number of parts of strings.Split but not with `== 3` in front of
+// every nil return.
+func c11ScidFmt(w *an.World, g *ssa.Function) (ok, partial bool) {
 	three := c11Cut(w, g, func(f an.Fact) bool {
 		return an.MatchLin(f, an.LinSpec{Rel: "==", Terms: map[string]int64{"len(call:func:strings.Split": 1}, Const: -3})
 	})
-	return c11AllNilCut(g, three)
+	if c11AllNilCut(w, g, three) {
+		return true, false
+	}
+	mentions := false
+	for _, f := range w.Facts(g) {
+		for k := range f.Terms {
+			if strings.HasPrefix(k, "len(call:func:strings.Split") && len(f.Terms) == 1 {
+				mentions = true
+			}
+		}
+	}
+	v, _ := c11NilCut(w, g, three, nil)
+	return false, mentions && v != 2
 }
 
 func c11Validate(c *an.Check, reqs []*types.Named) {
@@ -1230,7 +1474,23 @@ func c11Validate(c *an.Check, reqs []*types.Named) {
 			t := w.Term(v)
 			return strings.HasPrefix(t, "param#0") && strings.HasSuffix(t, rname+"."+field)
 		}
-		var pubCut, xorCut, scidCut []an.Edge
+		type vg struct {
+			id, okText, badText string
+			cut                 []an.Edge
+			okCalls             map[*ssa.Call]bool
+			wrong, unsure       []string
+		}
+		pub := &vg{id: "pubkey-length", okText: "nil return only after the 33-byte hex test of Pubkey succeeded", badText: "Validate can return nil without a successful 33-byte hex-length test of the request's Pubkey", okCalls: map[*ssa.Call]bool{}}
+		xor := &vg{id: "asset-xor-network", okText: "nil return only after the asset-xor-network test succeeded", badText: "Validate can return nil without a successful test that exactly one of Asset and Network is set", okCalls: map[*ssa.Call]bool{}}
+		scid := &vg{id: "scid-format", okText: "nil return only after the scid format test succeeded", badText: "Validate can return nil without a successful three-part format test of the request's Scid", okCalls: map[*ssa.Call]bool{}}
+		takes := func(args []ssa.Value, field string) bool {
+			for _, a := range args {
+				if recvField(a, field) {
+					return true
+				}
+			}
+			return false
+		}
 		for _, ci := range an.Calls(fn) {
 			call, ok := ci.(*ssa.Call)
 			if !ok {
@@ -1242,33 +1502,78 @@ func c11Validate(c *an.Check, reqs []*types.Named) {
 			}
 			okE, _ := an.OkEdges(call)
 			args := call.Call.Args
+			gname := w.FuncName(g)
+			accept := func(v *vg) {
+				v.cut = append(v.cut, okE...)
+				v.okCalls[call] = true
+			}
+			// pubkey
 			if si, ni, ok := c11HexLen(w, g); ok && si < len(args) && ni < len(args) {
-				if k, isK := an.ConstInt(args[ni]); isK && k == 33 && recvField(args[si], "Pubkey") {
-					pubCut = append(pubCut, okE...)
-				}
-			}
-			if ai, bi, ok := c11Xor(w, g); ok && ai < len(args) && bi < len(args) {
-				if (recvField(args[ai], "Asset") && recvField(args[bi], "Network")) || (recvField(args[ai], "Network") && recvField(args[bi], "Asset")) {
-					xorCut = append(xorCut, okE...)
-				}
-			}
-			if len(args) == 1 && recvField(args[0], "Scid") && c11ScidFmt(w, g) {
-				scidCut = append(scidCut, okE...)
-				// information: numeric conversions whose error is dropped
-				nAtoi, nChecked := len(callsNamed(w, g, "func:strconv.Atoi")), 0
-				for _, f := range w.Facts(g) {
-					if c11StrRel(f, "==", "call:func:strconv.Atoi#1", "nil") {
-						nChecked++
+				if recvField(args[si], "Pubkey") {
+					if k, isK := an.ConstInt(args[ni]); isK && k == 33 {
+						accept(pub)
+					} else if isK {
+						pub.wrong = append(pub.wrong, fmt.Sprintf("%s tests Pubkey for %d bytes", gname, k))
+					} else {
+						pub.unsure = append(pub.unsure, gname+" tests Pubkey for a non-constant length")
 					}
 				}
-				if nChecked < nAtoi {
-					c.Note("C11.R4", w.FuncName(g)+" numeric parts", w.Pos(g.Pos()), fmt.Sprintf("%d strconv.Atoi calls, %d error results tested: non-numeric scid parts pass the format test (not an admission condition; the capacity lookup fails for such a scid)", nAtoi, nChecked))
+			} else if takes(args, "Pubkey") {
+				pub.unsure = append(pub.unsure, gname+" receives Pubkey but is not recognised as a hex-length test")
+			}
+			// xor
+			if ai, bi, ok, partial := c11Xor(w, g); (ok || partial) && ai < len(args) && bi < len(args) {
+				right := (recvField(args[ai], "Asset") && recvField(args[bi], "Network")) || (recvField(args[ai], "Network") && recvField(args[bi], "Asset"))
+				switch {
+				case ok && right:
+					accept(xor)
+				case ok && (takes(args, "Asset") || takes(args, "Network")):
+					xor.wrong = append(xor.wrong, gname+" is applied to "+w.Term(args[ai])+" and "+w.Term(args[bi])+", not to Asset and Network")
+				case partial && right:
+					xor.wrong = append(xor.wrong, gname+" compares Asset and Network with \"\" but does not reject both-empty and both-set")
 				}
+			} else if takes(args, "Asset") && takes(args, "Network") {
+				xor.unsure = append(xor.unsure, gname+" receives Asset and Network but is not recognised as an exactly-one-set test")
+			}
+			// scid
+			if len(args) == 1 && recvField(args[0], "Scid") {
+				ok, partial := c11ScidFmt(w, g)
+				switch {
+				case ok:
+					accept(scid)
+					// information: numeric conversions whose error is dropped
+					nAtoi, nChecked := len(callsNamed(w, g, "func:strconv.Atoi")), 0
+					for _, f := range w.Facts(g) {
+						if c11StrRel(f, "==", "call:func:strconv.Atoi#1", "nil") {
+							nChecked++
+						}
+					}
+					if nChecked < nAtoi {
+						c.Note("C11.R4", gname+" numeric parts", w.Pos(g.Pos()), fmt.Sprintf("%d strconv.Atoi calls, %d error results tested: non-numeric scid parts pass the format test (not an admission condition; the capacity lookup fails for such a scid)", nAtoi, nChecked))
+					}
+				case partial:
+					scid.wrong = append(scid.wrong, gname+" looks at the number of parts of the scid but does not require exactly three")
+				default:
+					scid.unsure = append(scid.unsure, gname+" receives Scid but is not recognised as a three-part format test")
+				}
+			} else if takes(args, "Scid") {
+				scid.unsure = append(scid.unsure, gname+" receives Scid but is not recognised as a format test")
 			}
 		}
-		c.Decide(c11AllNilCut(fn, pubCut), "C11.R4", name+" pubkey-length", pos, "nil return only after the 33-byte hex test of Pubkey succeeded", "Validate can return nil without a successful 33-byte hex-length test of the request's Pubkey")
-		c.Decide(c11AllNilCut(fn, xorCut), "C11.R4", name+" asset-xor-network", pos, "nil return only after the asset-xor-network test succeeded", "Validate can return nil without a successful test that exactly one of Asset and Network is set")
-		c.Decide(c11AllNilCut(fn, scidCut), "C11.R4", name+" scid-format", pos, "nil return only after the scid format test succeeded", "Validate can return nil without a successful three-part format test of the request's Scid")
+		for _, v := range []*vg{pub, xor, scid} {
+			verdict, why := c11NilCut(w, fn, v.cut, v.okCalls)
+			cons := name + " " + v.id
+			switch {
+			case verdict == 0:
+				c.OK("C11.R4", cons, pos, v.okText)
+			case len(v.wrong) > 0:
+				c.Bad("C11.R4", cons, pos, v.badText+": "+strings.Join(v.wrong, "; "))
+			case len(v.unsure) > 0 || verdict == 2:
+				c.Unknown("C11.R4", cons, pos, "cannot decide: "+strings.Join(append(v.unsure, why), "; "))
+			default:
+				c.Bad("C11.R4", cons, pos, v.badText+" ("+why+")")
+			}
+		}
 	}
 	c.AtLeast("C11.R4", "request Validate methods", n, 2)
 }
@@ -1277,8 +1582,16 @@ func c11SendEvent(c *an.Check) {
 	w := c.W
 	fn := w.Func("swap", "(*SwapStateMachine).SendEvent")
 	name := w.FuncName(fn)
-	applies := callsNamed(w, fn, "iface:swap.EventContext.ApplyToSwapData")
-	if !c.AtLeast("C11.R4", "ApplyToSwapData calls in SendEvent", len(applies), 1) {
+	// the calls of SendEvent through which a context is applied (directly or in a helper)
+	var applies []ssa.CallInstruction
+	seenAp := map[ssa.CallInstruction]bool{}
+	for _, st := range c11Lifted(w, fn, "iface:swap.EventContext.ApplyToSwapData") {
+		if !seenAp[st.at] {
+			seenAp[st.at] = true
+			applies = append(applies, st.at)
+		}
+	}
+	if !c.AtLeast("C11.R4", "places in SendEvent where a context is applied", len(applies), 1) {
 		return
 	}
 	invV, ok := c11ConstOf(w, "swap", "Event_OnInvalid_Message")
@@ -1291,7 +1604,11 @@ func c11SendEvent(c *an.Check) {
 	for _, ap := range applies {
 		cons := name + " validate-before-apply"
 		if len(okCut) == 0 || !an.EdgesDominate(okCut, ap.Block()) {
-			c.Bad("C11.R4", cons, w.Pos(ap.Pos()), "an event context is applied to the swap data without a successful Validate; facts dominating the call: "+an.DescribeFacts(w.FactsDominating(ap)))
+			if o := c11XOf(w).opaque(fn, ap.Block()); len(o) > 0 {
+				c.Unknown("C11.R4", cons, w.Pos(ap.Pos()), "no `Validate == nil` edge dominates ApplyToSwapData, but the verdict of "+strings.Join(o, ", ")+" is tested and cannot be interpreted")
+				continue
+			}
+			c.Bad("C11.R4", cons, w.Pos(ap.Pos()), "an event context is applied to the swap data without a successful Validate; facts dominating the call: "+an.DescribeFacts(c11Dom(w, ap)))
 			continue
 		}
 		// the failing edge re-enters with the invalid-message event on every path to a return
@@ -1313,4 +1630,785 @@ func c11SendEvent(c *an.Check) {
 		c.Decide(silent == "", "C11.R4", cons, w.Pos(ap.Pos()), "context applied only after Validate succeeded; a failed Validate injects "+inv,
 			"Validate guards ApplyToSwapData, but a failed Validate can return without injecting "+inv+" (returns at"+silent+")")
 	}
+}
+
+// ---- BEGIN shared expansion (identical in c11.go and c12.go up to the prefix) ----
+//
+// c11X extends the engine's edge facts with what is known on an edge because an
+// in-module helper returned a particular verdict there:
+//   * `if pred(args)` / `if !pred(args)` with pred returning one bool: the facts
+//     that hold whenever pred returns that value;
+//   * the nil edge of `err := check(args)`: the facts that hold whenever check
+//     returns a nil error (`return other(args)` is followed).
+// Callee facts are re-issued on the caller's edge with `param#i` replaced by the
+// name of the i-th argument; callee parameters are bound to the argument values
+// for the rules that look at values. An expansion is *complete* when every
+// return of the helper could be interpreted; a tested helper call whose
+// expansion is incomplete is "opaque": a guard that is not found behind an
+// opaque call is undecided, not violated.
+
+type c11X struct {
+	w      *an.World
+	memo   map[*ssa.Function][]an.Fact
+	opq    map[*ssa.Function][]c11Opq
+	alts   map[*ssa.Function][]c11Alt
+	bind   map[ssa.Value]ssa.Value
+	ambig  map[ssa.Value]bool
+	active map[*ssa.Function]bool
+}
+
+func c11NewX(w *an.World) *c11X {
+	return &c11X{w: w, memo: map[*ssa.Function][]an.Fact{}, opq: map[*ssa.Function][]c11Opq{}, alts: map[*ssa.Function][]c11Alt{}, bind: map[ssa.Value]ssa.Value{}, ambig: map[ssa.Value]bool{}, active: map[*ssa.Function]bool{}}
+}
+
+const c11Depth = 3
+
+// resolve maps a helper parameter to the argument it was called with.
+func (x *c11X) resolve(v ssa.Value) ssa.Value {
+	for i := 0; i < 4; i++ {
+		a, ok := x.bind[v]
+		if !ok || x.ambig[v] {
+			return v
+		}
+		v = a
+	}
+	return v
+}
+
+func c11Key(f an.Fact) string { return f.String() }
+
+// facts: engine facts of fn plus the derived ones.
+func (x *c11X) facts(fn *ssa.Function) []an.Fact { return x.factsD(fn, 0) }
+
+func (x *c11X) factsD(fn *ssa.Function, depth int) []an.Fact {
+	if fs, ok := x.memo[fn]; ok {
+		return fs
+	}
+	base := x.w.Facts(fn)
+	if x.active[fn] {
+		return base
+	}
+	x.active[fn] = true
+	defer delete(x.active, fn)
+	out := append([]an.Fact{}, base...)
+	seen := map[string]bool{}
+	add := func(e an.Edge, fs []an.Fact) {
+		for _, d := range fs {
+			d.Edge = e
+			k := fmt.Sprintf("%p/%d/%s", e.From, e.Idx, c11Key(d))
+			if !seen[k] {
+				seen[k] = true
+				out = append(out, d)
+			}
+		}
+	}
+	for _, f := range base {
+		call, idx, kind := x.verdictCall(f)
+		if call == nil {
+			continue
+		}
+		g := call.Call.StaticCallee()
+		if depth >= c11Depth {
+			x.opq[fn] = append(x.opq[fn], c11Opq{x.w.FuncName(g) + " (nesting too deep)", f.Edge})
+			continue
+		}
+		var ds []an.Fact
+		var sets [][]an.Fact
+		complete := true
+		switch kind {
+		case "bool":
+			ds, sets, complete = x.retFactsS(g, f.Rel == "true", depth+1)
+		case "nil":
+			ds, sets, complete = x.nilFactsS(g, idx, depth+1)
+		}
+		if len(sets) > 1 {
+			a := c11Alt{edge: f.Edge, helper: x.w.FuncName(g), complete: complete}
+			for _, s := range sets {
+				a.sets = append(a.sets, x.subst(s, g, call))
+			}
+			x.alts[fn] = append(x.alts[fn], a)
+		}
+		if !complete {
+			x.opq[fn] = append(x.opq[fn], c11Opq{x.w.FuncName(g), f.Edge})
+		}
+		add(f.Edge, x.subst(ds, g, call))
+	}
+	x.memo[fn] = out
+	return out
+}
+
+// verdictCall: the fact tests the bool result / the nil-ness of the error result
+// of a call to an in-module function with a body.
+func (x *c11X) verdictCall(f an.Fact) (*ssa.Call, int, string) {
+	inMod := func(c *ssa.Call) bool {
+		g := c.Call.StaticCallee()
+		return g != nil && g.Blocks != nil && x.w.InModule(g)
+	}
+	if f.Rel == "true" || f.Rel == "false" {
+		if c, ok := f.Cond.(*ssa.Call); ok && inMod(c) {
+			if r := c.Call.Signature().Results(); r.Len() == 1 && c11IsBool(r.At(0).Type()) {
+				return c, 0, "bool"
+			}
+		}
+		return nil, 0, ""
+	}
+	if f.NonNum && f.Rel == "==" && (f.L == "nil" || f.R == "nil") {
+		for _, v := range []ssa.Value{f.LV, f.RV} {
+			if v == nil {
+				continue
+			}
+			idx := 0
+			if ex, ok := v.(*ssa.Extract); ok {
+				idx = ex.Index
+				v = ex.Tuple
+			}
+			if c, ok := v.(*ssa.Call); ok && inMod(c) {
+				r := c.Call.Signature().Results()
+				if idx < r.Len() && an.IsErrorType(r.At(idx).Type()) {
+					return c, idx, "nil"
+				}
+			}
+		}
+	}
+	return nil, 0, ""
+}
+
+func c11IsBool(t types.Type) bool {
+	b, ok := t.Underlying().(*types.Basic)
+	return ok && b.Info()&types.IsBoolean != 0
+}
+
+func c11IsInt(t types.Type) bool {
+	b, ok := t.Underlying().(*types.Basic)
+	return ok && b.Info()&types.IsInteger != 0
+}
+
+// subst re-issues callee facts in the caller's vocabulary and records the
+// parameter bindings.
+func (x *c11X) subst(fs []an.Fact, g *ssa.Function, call *ssa.Call) []an.Fact {
+	args := call.Call.Args
+	names := make([]string, len(g.Params))
+	for i, p := range g.Params {
+		if i >= len(args) {
+			continue
+		}
+		names[i] = x.w.Term(args[i])
+		if old, ok := x.bind[p]; ok && old != args[i] {
+			x.ambig[p] = true
+		}
+		x.bind[p] = args[i]
+	}
+	rep := func(s string) string {
+		if !strings.Contains(s, "param#") {
+			return s
+		}
+		var sb strings.Builder
+		for i := 0; i < len(s); {
+			if strings.HasPrefix(s[i:], "param#") {
+				j := i + len("param#")
+				n := 0
+				k := j
+				for k < len(s) && s[k] >= '0' && s[k] <= '9' {
+					n = n*10 + int(s[k]-'0')
+					k++
+				}
+				if k > j && n < len(names) && names[n] != "" {
+					sb.WriteString(names[n])
+					i = k
+					continue
+				}
+			}
+			sb.WriteByte(s[i])
+			i++
+		}
+		return sb.String()
+	}
+	var out []an.Fact
+	for _, f := range fs {
+		d := f
+		if f.Terms != nil {
+			d.Terms = map[string]int64{}
+			for k, c := range f.Terms {
+				d.Terms[rep(k)] += c
+			}
+		}
+		d.Atom, d.L, d.R = rep(f.Atom), rep(f.L), rep(f.R)
+		if d.NonNum && (d.Rel == "==" || d.Rel == "!=") && d.L > d.R {
+			d.L, d.R = d.R, d.L
+		}
+		out = append(out, d)
+	}
+	return out
+}
+
+// at: the facts of g that hold when control is in block b (having arrived over
+// edge `via` when via.From != nil).
+func (x *c11X) at(g *ssa.Function, b *ssa.BasicBlock, via an.Edge, depth int) []an.Fact {
+	var out []an.Fact
+	for _, f := range x.factsD(g, depth) {
+		if via.From != nil && f.Edge == via {
+			out = append(out, f)
+			continue
+		}
+		if f.Edge.From == b {
+			continue
+		}
+		if an.EdgeDominates(f.Edge, b) {
+			out = append(out, f)
+		}
+	}
+	return out
+}
+
+// dominating: facts (incl. derived) on every path to the instruction.
+func (x *c11X) dominating(in ssa.Instruction) []an.Fact {
+	return x.at(in.Parent(), in.Block(), an.Edge{}, 0)
+}
+
+// c11Alt: on `edge` one of the alternatives holds (one per way the helper can
+// return the tested verdict); each alternative is a conjunction of facts.
+type c11Alt struct {
+	edge     an.Edge
+	helper   string
+	sets     [][]an.Fact
+	complete bool
+}
+
+// alternatives of fn (disjunctive knowledge on verdict edges).
+func (x *c11X) alternatives(fn *ssa.Function) []c11Alt {
+	x.facts(fn)
+	return x.alts[fn]
+}
+
+type c11Opq struct {
+	name string
+	edge an.Edge
+}
+
+// opaque lists the tested helper calls of fn whose verdict could not be fully
+// interpreted and whose verdict edge lies on every path to one of the given
+// blocks (all such calls when no block is given): only those could hide a guard
+// of these blocks.
+func (x *c11X) opaque(fn *ssa.Function, targets ...*ssa.BasicBlock) []string {
+	x.facts(fn)
+	m := map[string]bool{}
+	for _, o := range x.opq[fn] {
+		if len(targets) == 0 {
+			m[o.name] = true
+			continue
+		}
+		for _, b := range targets {
+			if b != nil && o.edge.From != b && an.EdgeDominates(o.edge, b) {
+				m[o.name] = true
+			}
+		}
+	}
+	return sortedKeys(m)
+}
+
+type c11Case struct {
+	v    ssa.Value
+	b    *ssa.BasicBlock // block in which the case is decided
+	via  an.Edge         // incoming phi edge (From == nil: none)
+	ret  *ssa.Return
+	lost bool // value not determined
+}
+
+// c11Expand expands a value observed in block b into (value, place) pairs,
+// looking through phis (the place is then the predecessor and the incoming edge)
+// and through go/ssa's spilled locals (reaching stores).
+func c11Expand(v ssa.Value, b *ssa.BasicBlock, via an.Edge, r *ssa.Return, depth int, expandSC bool, out *[]c11Case) {
+	if phi, ok := v.(*ssa.Phi); ok && depth < 4 {
+		if _, _, isSC := an.PhiConjuncts(phi); expandSC || !isSC || !c11IsBool(phi.Type()) {
+			for i, e := range phi.Edges {
+				pred := phi.Block().Preds[i]
+				ve := an.Edge{}
+				if len(pred.Succs) == 2 && pred.Succs[0] != pred.Succs[1] {
+					if pred.Succs[0] == phi.Block() {
+						ve = an.Edge{From: pred, Idx: 0}
+					} else {
+						ve = an.Edge{From: pred, Idx: 1}
+					}
+				}
+				c11Expand(e, pred, ve, r, depth+1, expandSC, out)
+			}
+			return
+		}
+	}
+	if u, ok := v.(*ssa.UnOp); ok && u.Op == token.MUL && depth < 4 {
+		if al, ok := u.X.(*ssa.Alloc); ok {
+			sts, fromEntry := an.StoresReaching(u, al)
+			if fromEntry || len(sts) == 0 {
+				*out = append(*out, c11Case{v: v, b: b, via: via, ret: r, lost: true})
+				return
+			}
+			for _, st := range sts {
+				c11Expand(st.Val, st.Block(), an.Edge{}, r, depth+1, expandSC, out)
+			}
+			return
+		}
+	}
+	*out = append(*out, c11Case{v: v, b: b, via: via, ret: r})
+}
+
+// c11Cases expands the idx-th result of every return of g.
+func c11Cases(g *ssa.Function, idx int, expandSC bool) []c11Case {
+	var out []c11Case
+	for _, r := range an.Returns(g) {
+		if r.Block() == g.Recover || idx >= len(r.Results) {
+			continue
+		}
+		c11Expand(r.Results[idx], r.Block(), an.Edge{}, r, 0, expandSC, &out)
+	}
+	return out
+}
+
+// c11ValCases expands a value used in block b.
+func c11ValCases(v ssa.Value, b *ssa.BasicBlock) []c11Case {
+	var out []c11Case
+	c11Expand(v, b, an.Edge{}, nil, 0, true, &out)
+	return out
+}
+
+func c11Intersect(sets [][]an.Fact) []an.Fact {
+	if len(sets) == 0 {
+		return nil
+	}
+	var out []an.Fact
+	done := map[string]bool{}
+	for _, f := range sets[0] {
+		k := c11Key(f)
+		if done[k] {
+			continue
+		}
+		done[k] = true
+		all := true
+		for _, s := range sets[1:] {
+			has := false
+			for _, h := range s {
+				if c11Key(h) == k {
+					has = true
+					break
+				}
+			}
+			if !has {
+				all = false
+				break
+			}
+		}
+		if all {
+			out = append(out, f)
+		}
+	}
+	return out
+}
+
+// retFacts: facts that hold whenever g (one bool result) returns `holds`.
+func (x *c11X) retFacts(g *ssa.Function, holds bool, depth int) ([]an.Fact, bool) {
+	fs, _, c := x.retFactsS(g, holds, depth)
+	return fs, c
+}
+
+func (x *c11X) retFactsS(g *ssa.Function, holds bool, depth int) ([]an.Fact, [][]an.Fact, bool) {
+	complete := true
+	var sets [][]an.Fact
+	for _, cs := range c11Cases(g, 0, false) {
+		if cs.lost {
+			complete = false
+			sets = append(sets, nil)
+			continue
+		}
+		if k, ok := cs.v.(*ssa.Const); ok && k.Value != nil && k.Value.Kind() == constant.Bool {
+			if constant.BoolVal(k.Value) != holds {
+				continue
+			}
+			sets = append(sets, x.at(g, cs.b, cs.via, depth))
+			continue
+		}
+		fs, ok := x.condFacts(cs.v, holds, depth)
+		if !ok {
+			complete = false
+		}
+		sets = append(sets, append(x.at(g, cs.b, cs.via, depth), fs...))
+	}
+	return c11Intersect(sets), sets, complete
+}
+
+// nonNil: the error value of this case cannot be nil.
+func (x *c11X) nonNil(cs c11Case) bool { return x.nonNilD(cs, 0) }
+
+func (x *c11X) nonNilD(cs c11Case, depth int) bool {
+	v := cs.v
+	switch y := v.(type) {
+	case *ssa.MakeInterface:
+		return true
+	case *ssa.UnOp:
+		if _, isG := y.X.(*ssa.Global); isG && y.Op == token.MUL {
+			return true // package-level error variable
+		}
+	case *ssa.Call:
+		switch x.w.Info(y).Name {
+		case "func:errors.New", "func:fmt.Errorf":
+			return true
+		}
+	}
+	// the value was tested non-nil on the way here
+	var call *ssa.Call
+	if ex, ok := v.(*ssa.Extract); ok {
+		call, _ = ex.Tuple.(*ssa.Call)
+	} else {
+		call, _ = v.(*ssa.Call)
+	}
+	if call != nil {
+		// a constructor of errors: every return of the in-module callee is non-nil
+		if h := call.Call.StaticCallee(); h != nil && h.Blocks != nil && x.w.InModule(h) && depth < 2 {
+			idx := 0
+			if ex, ok := v.(*ssa.Extract); ok {
+				idx = ex.Index
+			}
+			hc := c11Cases(h, idx, false)
+			all := len(hc) > 0
+			for _, k := range hc {
+				if k.lost || an.IsNilConst(k.v) || !x.nonNilD(k, depth+1) {
+					all = false
+				}
+			}
+			if all {
+				return true
+			}
+		}
+		if _, fail := an.OkEdges(call); len(fail) > 0 {
+			for _, e := range fail {
+				if e == cs.via {
+					return true
+				}
+			}
+			if an.EdgesDominate(fail, cs.b) {
+				return true
+			}
+		}
+	}
+	return false
+}
+
+// nilFacts: facts that hold whenever the idx-th (error) result of g is nil.
+func (x *c11X) nilFacts(g *ssa.Function, idx int, depth int) ([]an.Fact, bool) {
+	fs, _, c := x.nilFactsS(g, idx, depth)
+	return fs, c
+}
+
+func (x *c11X) nilFactsS(g *ssa.Function, idx int, depth int) ([]an.Fact, [][]an.Fact, bool) {
+	complete := true
+	var sets [][]an.Fact
+	for _, cs := range c11Cases(g, idx, false) {
+		if cs.lost {
+			complete = false
+			sets = append(sets, nil)
+			continue
+		}
+		if an.IsNilConst(cs.v) {
+			sets = append(sets, x.at(g, cs.b, cs.via, depth))
+			continue
+		}
+		if x.nonNil(cs) {
+			continue
+		}
+		// `return other(args)`
+		v := cs.v
+		hidx := 0
+		if ex, ok := v.(*ssa.Extract); ok {
+			hidx = ex.Index
+			v = ex.Tuple
+		}
+		if c, ok := v.(*ssa.Call); ok {
+			h := c.Call.StaticCallee()
+			if h != nil && h.Blocks != nil && x.w.InModule(h) && depth < c11Depth {
+				hf, hc := x.nilFacts(h, hidx, depth+1)
+				if !hc {
+					complete = false
+				}
+				sets = append(sets, append(x.at(g, cs.b, cs.via, depth), x.subst(hf, h, c)...))
+				continue
+			}
+		}
+		complete = false
+		sets = append(sets, x.at(g, cs.b, cs.via, depth))
+	}
+	return c11Intersect(sets), sets, complete
+}
+
+// condFacts: facts that hold when the boolean value v equals `holds`.
+func (x *c11X) condFacts(v ssa.Value, holds bool, depth int) ([]an.Fact, bool) {
+	w := x.w
+	for {
+		if u, ok := v.(*ssa.UnOp); ok && u.Op == token.NOT {
+			holds = !holds
+			v = u.X
+			continue
+		}
+		if bo, ok := v.(*ssa.BinOp); ok && (bo.Op == token.EQL || bo.Op == token.NEQ) && c11IsBool(bo.X.Type()) {
+			var other ssa.Value
+			var cv *ssa.Const
+			if c, ok := bo.Y.(*ssa.Const); ok {
+				other, cv = bo.X, c
+			} else if c, ok := bo.X.(*ssa.Const); ok {
+				other, cv = bo.Y, c
+			}
+			if cv != nil && cv.Value != nil && cv.Value.Kind() == constant.Bool {
+				if (bo.Op == token.EQL) != constant.BoolVal(cv.Value) {
+					holds = !holds
+				}
+				v = other
+				continue
+			}
+		}
+		break
+	}
+	if ops, isAnd, ok := an.PhiConjuncts(v); ok {
+		if isAnd != holds {
+			return nil, true // a disjunction: nothing definite, but nothing lost that a single fact could say
+		}
+		var out []an.Fact
+		complete := true
+		for _, op := range ops {
+			fs, c := x.condFacts(op, holds, depth)
+			out = append(out, fs...)
+			complete = complete && c
+		}
+		// the operand that decided the constant edges
+		phi := v.(*ssa.Phi)
+		for i, e := range phi.Edges {
+			if _, isC := e.(*ssa.Const); !isC {
+				continue
+			}
+			pred := phi.Block().Preds[i]
+			if len(pred.Instrs) == 0 {
+				continue
+			}
+			if pi, ok := pred.Instrs[len(pred.Instrs)-1].(*ssa.If); ok && len(pred.Succs) == 2 {
+				if (isAnd && pred.Succs[1] == phi.Block() && pred.Succs[0] != phi.Block()) || (!isAnd && pred.Succs[0] == phi.Block() && pred.Succs[1] != phi.Block()) {
+					fs, c := x.condFacts(pi.Cond, holds, depth)
+					out = append(out, fs...)
+					complete = complete && c
+				}
+			}
+		}
+		return out, complete
+	}
+	if _, isPhi := v.(*ssa.Phi); isPhi {
+		return nil, false
+	}
+	f := an.Fact{Cond: v}
+	bo, isCmp := v.(*ssa.BinOp)
+	if isCmp {
+		switch bo.Op {
+		case token.EQL, token.NEQ, token.LSS, token.LEQ, token.GTR, token.GEQ:
+		default:
+			isCmp = false
+		}
+	}
+	if !isCmp {
+		f.Atom = w.Term(v)
+		if holds {
+			f.Rel = "true"
+		} else {
+			f.Rel = "false"
+		}
+		out := []an.Fact{f}
+		complete := true
+		if c, ok := v.(*ssa.Call); ok {
+			f.Args = c.Call.Args
+			out[0] = f
+			if g := c.Call.StaticCallee(); g != nil && g.Blocks != nil && w.InModule(g) && c.Call.Signature().Results().Len() == 1 {
+				if depth >= c11Depth {
+					return out, false
+				}
+				ds, cpl := x.retFacts(g, holds, depth+1)
+				out = append(out, x.subst(ds, g, c)...)
+				complete = cpl
+			}
+		}
+		return out, complete
+	}
+	op := bo.Op
+	if !holds {
+		switch op {
+		case token.EQL:
+			op = token.NEQ
+		case token.NEQ:
+			op = token.EQL
+		case token.LSS:
+			op = token.GEQ
+		case token.LEQ:
+			op = token.GTR
+		case token.GTR:
+			op = token.LEQ
+		case token.GEQ:
+			op = token.LSS
+		}
+	}
+	f.LV, f.RV = bo.X, bo.Y
+	lf := w.LinearDiff(bo.X, bo.Y)
+	if lf == nil {
+		f.NonNum = true
+		l, r := w.Term(bo.X), w.Term(bo.Y)
+		switch op {
+		case token.EQL, token.NEQ:
+			if l > r {
+				l, r = r, l
+			}
+		case token.LSS:
+			l, r, op = r, l, token.GTR
+		case token.LEQ:
+			l, r, op = r, l, token.GEQ
+		}
+		f.L, f.R, f.Rel = l, r, op.String()
+		return []an.Fact{f}, true
+	}
+	f.Terms = map[string]int64{}
+	for k, c := range lf.Terms {
+		f.Terms[k] = c
+	}
+	f.Const = lf.Const
+	f.Widths = append(c11ArithWidths(bo.X, 0), c11ArithWidths(bo.Y, 0)...)
+	flip := false
+	switch op {
+	case token.LSS:
+		flip, op = true, token.GTR
+	case token.LEQ:
+		flip, op = true, token.GEQ
+	case token.EQL, token.NEQ:
+		var ks []string
+		for k := range f.Terms {
+			ks = append(ks, k)
+		}
+		sort.Strings(ks)
+		if len(ks) > 0 && f.Terms[ks[0]] < 0 {
+			flip = true
+		} else if len(ks) == 0 && f.Const < 0 {
+			flip = true
+		}
+	}
+	if flip {
+		for k := range f.Terms {
+			f.Terms[k] = -f.Terms[k]
+		}
+		f.Const = -f.Const
+	}
+	f.Rel = op.String()
+	return []an.Fact{f}, true
+}
+
+// c11ArithWidths: bit widths of the integer additions/subtractions/multiplications under v.
+func c11ArithWidths(v ssa.Value, depth int) []int {
+	if depth > 8 {
+		return nil
+	}
+	switch y := v.(type) {
+	case *ssa.Convert:
+		if c11IsInt(y.Type()) && c11IsInt(y.X.Type()) {
+			return c11ArithWidths(y.X, depth+1)
+		}
+	case *ssa.ChangeType:
+		return c11ArithWidths(y.X, depth+1)
+	case *ssa.BinOp:
+		if !c11IsInt(y.Type()) {
+			return nil
+		}
+		switch y.Op {
+		case token.ADD, token.SUB, token.MUL:
+			wd := 64
+			if b, ok := y.Type().Underlying().(*types.Basic); ok {
+				switch b.Kind() {
+				case types.Int8, types.Uint8:
+					wd = 8
+				case types.Int16, types.Uint16:
+					wd = 16
+				case types.Int32, types.Uint32:
+					wd = 32
+				}
+			}
+			return append(append(c11ArithWidths(y.X, depth+1), c11ArithWidths(y.Y, depth+1)...), wd)
+		}
+	}
+	return nil
+}
+
+// cut: the edges of fn on which pass holds (engine and derived facts).
+func (x *c11X) cut(fn *ssa.Function, pass func(an.Fact) bool) []an.Edge {
+	var out []an.Edge
+	seen := map[an.Edge]bool{}
+	for _, f := range x.facts(fn) {
+		if !seen[f.Edge] && pass(f) {
+			seen[f.Edge] = true
+			out = append(out, f.Edge)
+		}
+	}
+	return out
+}
+
+// c11Site is an effect call as seen from an anchor function: `at` is the call
+// instruction in the anchor (the effect itself, or the call of the in-module
+// helper through which it is reached), `inner` the effect call itself.
+type c11Site struct {
+	at    ssa.CallInstruction
+	inner ssa.CallInstruction
+}
+
+// c11Lifted lists the calls of fn through which the effect `name` is reached
+// synchronously (directly or inside in-module helpers, depth <= 3).
+func c11Lifted(w *an.World, fn *ssa.Function, name string) []c11Site {
+	var out []c11Site
+	var inner func(h *ssa.Function, depth int, seen map[*ssa.Function]bool) []ssa.CallInstruction
+	inner = func(h *ssa.Function, depth int, seen map[*ssa.Function]bool) []ssa.CallInstruction {
+		if seen[h] || depth > 3 {
+			return nil
+		}
+		seen[h] = true
+		var r []ssa.CallInstruction
+		for _, ci := range an.Calls(h) {
+			if _, isGo := ci.(*ssa.Go); isGo {
+				continue
+			}
+			if w.Info(ci).Name == name {
+				r = append(r, ci)
+				continue
+			}
+			if g := ci.Common().StaticCallee(); g != nil && g.Blocks != nil && w.InModule(g) && w.Info(ci).Name != fxActionExecute {
+				r = append(r, inner(g, depth+1, seen)...)
+			}
+		}
+		return r
+	}
+	for _, ci := range an.Calls(fn) {
+		if _, isGo := ci.(*ssa.Go); isGo {
+			continue
+		}
+		if w.Info(ci).Name == name {
+			out = append(out, c11Site{ci, ci})
+			continue
+		}
+		if g := ci.Common().StaticCallee(); g != nil && g.Blocks != nil && w.InModule(g) {
+			for _, in := range inner(g, 1, map[*ssa.Function]bool{fn: true}) {
+				out = append(out, c11Site{ci, in})
+			}
+		}
+	}
+	return out
+}
+
+// ---- END shared expansion ----
+
+var c11Xs = map[*an.World]*c11X{}
+var c11Xmu sync.Mutex
+
+func c11XOf(w *an.World) *c11X {
+	c11Xmu.Lock()
+	defer c11Xmu.Unlock()
+	x := c11Xs[w]
+	if x == nil {
+		x = c11NewX(w)
+		c11Xs[w] = x
+	}
+	return x
 }
